@@ -55,11 +55,14 @@ type verifC14Group struct {
 }
 
 type verifC14Tx struct {
-	ID     int
-	Msg    *wire.MsgTx
-	Hash   chainhash.Hash
-	Groups []int
-	InIdx  map[int]uint32 // group -> index of the input spending FundIn
+	ID      int
+	Msg     *wire.MsgTx
+	Hash    chainhash.Hash
+	Groups  []int
+	InIdx   map[int]uint32 // group -> index of the input spending FundIn
+	OutIdx  map[int]uint32 // conf group -> index of the output paying its script
+	NConfG  int            // number of conf groups (watched scripts paid)
+	NSpendG int            // number of spend groups (watched outpoints spent)
 }
 
 type verifC14Block struct {
@@ -164,9 +167,15 @@ func verifC14NewGroup(r *verifRng, id int, spend bool) *verifC14Group {
 	return g
 }
 
+// verifC14MakeTx builds a transaction that is a member of every given group:
+// it spends the FundIn of each of them (in the given order, unwatched inputs in
+// between) and pays the script of every conf group among them, one output
+// each, in PRNG order with unwatched outputs before / between / after, so that
+// a watched output (input) is not always the first one and one transaction can
+// satisfy several DIFFERENT requests at different output (input) indexes.
 func verifC14MakeTx(r *verifRng, id int, groups []*verifC14Group) *verifC14Tx {
 	tx := wire.NewMsgTx(2)
-	vt := &verifC14Tx{ID: id, InIdx: map[int]uint32{}}
+	vt := &verifC14Tx{ID: id, InIdx: map[int]uint32{}, OutIdx: map[int]uint32{}}
 	junkIn := func() {
 		op := wire.OutPoint{Hash: verifC14RandHash(r), Index: uint32(r.Intn(2))}
 		var wit wire.TxWitness
@@ -175,9 +184,13 @@ func verifC14MakeTx(r *verifRng, id int, groups []*verifC14Group) *verifC14Tx {
 		}
 		tx.AddTxIn(wire.NewTxIn(&op, nil, wit))
 	}
+	junkOut := func() {
+		tx.AddTxOut(wire.NewTxOut(int64(1000+r.Intn(100000)), verifC14JunkScript(r)))
+	}
 	if r.Chance(1, 3) {
 		junkIn()
 	}
+	var outs []*verifC14Group
 	for _, g := range groups {
 		vt.Groups = append(vt.Groups, g.ID)
 		vt.InIdx[g.ID] = uint32(len(tx.TxIn))
@@ -185,24 +198,36 @@ func verifC14MakeTx(r *verifRng, id int, groups []*verifC14Group) *verifC14Tx {
 		var wit wire.TxWitness
 		if g.Spend {
 			wit = g.Witness
-		} else if r.Bool() {
-			wit = wire.TxWitness{r.Bytes(9), r.Bytes(23)}
+			vt.NSpendG++
+		} else {
+			vt.NConfG++
+			outs = append(outs, g)
+			if r.Bool() {
+				wit = wire.TxWitness{r.Bytes(9), r.Bytes(23)}
+			}
 		}
 		tx.AddTxIn(wire.NewTxIn(&op, nil, wit))
 		if r.Chance(1, 4) {
 			junkIn()
 		}
 	}
-	if r.Chance(1, 3) {
-		tx.AddTxOut(wire.NewTxOut(int64(1000+r.Intn(100000)), verifC14JunkScript(r)))
+	// output order is independent of the input order.
+	for i := len(outs) - 1; i > 0; i-- {
+		j := r.Intn(i + 1)
+		outs[i], outs[j] = outs[j], outs[i]
 	}
-	for _, g := range groups {
-		if !g.Spend {
-			tx.AddTxOut(wire.NewTxOut(int64(1000+r.Intn(100000)), g.Script))
+	if r.Chance(1, 3) {
+		junkOut()
+	}
+	for k, g := range outs {
+		if k > 0 && r.Chance(1, 2) {
+			junkOut()
 		}
+		vt.OutIdx[g.ID] = uint32(len(tx.TxOut))
+		tx.AddTxOut(wire.NewTxOut(int64(1000+r.Intn(100000)), g.Script))
 	}
 	if len(tx.TxOut) == 0 || r.Chance(1, 3) {
-		tx.AddTxOut(wire.NewTxOut(int64(1000+r.Intn(100000)), verifC14JunkScript(r)))
+		junkOut()
 	}
 	tx.LockTime = uint32(r.Intn(1000))
 	vt.Msg = tx
@@ -215,12 +240,96 @@ type verifC14Universe struct {
 	ConfG  []int
 	SpendG []int
 	Txs    []*verifC14Tx
+	// Multi lists the transactions that pay >= 2 different watched scripts
+	// and/or spend >= 2 different watched outpoints.
+	Multi []*verifC14Tx
+	// NDyn counts the groups added mid-history (newBatch), NDynTx the
+	// newBatch calls.
+	NDyn, NDynTx int
+}
+
+// verifC14PickGroups returns k distinct ids of the list in PRNG order.
+func verifC14PickGroups(r *verifRng, ids []int, k int) []int {
+	cp := append([]int(nil), ids...)
+	for i := len(cp) - 1; i > 0; i-- {
+		j := r.Intn(i + 1)
+		cp[i], cp[j] = cp[j], cp[i]
+	}
+	if k > len(cp) {
+		k = len(cp)
+	}
+	return cp[:k]
+}
+
+func (u *verifC14Universe) add(r *verifRng, gs ...*verifC14Group) *verifC14Tx {
+	tx := verifC14MakeTx(r, len(u.Txs), gs)
+	u.Txs = append(u.Txs, tx)
+	if tx.NConfG >= 2 || tx.NSpendG >= 2 {
+		u.Multi = append(u.Multi, tx)
+	}
+	return tx
+}
+
+// addIDs adds a transaction that is a member of the given groups; the input
+// order of the members is PRNG order.
+func (u *verifC14Universe) addIDs(r *verifRng, ids []int) *verifC14Tx {
+	ids = verifC14PickGroups(r, ids, len(ids))
+	var gs []*verifC14Group
+	for _, id := range ids {
+		gs = append(gs, u.Groups[id])
+	}
+	return u.add(r, gs...)
+}
+
+// newBatch extends the universe, mid-history, by 2-4 FRESH groups of one kind
+// (new unique watched scripts, or new watched outpoints) and ONE transaction
+// that is a member of all of them: a batch funding transaction that was just
+// created (conf) or a sweep of several watched outputs (spend). Nothing of it
+// can be on any chain yet, so it can be mined on the current tip. Some of the
+// fresh groups also get a single-group member and/or a second multi-group
+// member over a subset (replacements that a reorg can bring in instead).
+func (u *verifC14Universe) newBatch(r *verifRng, spend bool) *verifC14Tx {
+	var ids []int
+	for k := 2 + r.Intn(3); k > 0; k-- {
+		g := verifC14NewGroup(r, 100+u.NDyn, spend)
+		u.NDyn++
+		u.Groups[g.ID] = g
+		if spend {
+			u.SpendG = append(u.SpendG, g.ID)
+		} else {
+			u.ConfG = append(u.ConfG, g.ID)
+		}
+		ids = append(ids, g.ID)
+	}
+	all := append([]int(nil), ids...)
+	if r.Chance(1, 4) {
+		// plus one fresh group of the other kind
+		g := verifC14NewGroup(r, 100+u.NDyn, !spend)
+		u.NDyn++
+		u.Groups[g.ID] = g
+		if g.Spend {
+			u.SpendG = append(u.SpendG, g.ID)
+		} else {
+			u.ConfG = append(u.ConfG, g.ID)
+		}
+		all = append(all, g.ID)
+	}
+	tx := u.addIDs(r, all)
+	for _, id := range ids {
+		if r.Chance(1, 3) {
+			u.add(r, u.Groups[id])
+		}
+	}
+	if r.Chance(1, 3) {
+		u.addIDs(r, verifC14PickGroups(r, ids, 2+r.Intn(len(ids)-1)))
+	}
+	return tx
 }
 
 func verifC14NewUniverse(r *verifRng) *verifC14Universe {
 	u := &verifC14Universe{Groups: map[int]*verifC14Group{}}
-	nc := 1 + r.Intn(3)
-	ns := 1 + r.Intn(3)
+	nc := 1 + r.Intn(4)
+	ns := 1 + r.Intn(4)
 	for i := 0; i < nc; i++ {
 		g := verifC14NewGroup(r, i, false)
 		u.Groups[g.ID] = g
@@ -231,9 +340,8 @@ func verifC14NewUniverse(r *verifRng) *verifC14Universe {
 		u.Groups[g.ID] = g
 		u.SpendG = append(u.SpendG, g.ID)
 	}
-	add := func(gs ...*verifC14Group) {
-		u.Txs = append(u.Txs, verifC14MakeTx(r, len(u.Txs), gs))
-	}
+	add := func(gs ...*verifC14Group) { u.add(r, gs...) }
+	addIDs := func(ids []int) { u.addIDs(r, ids) }
 	for _, id := range u.ConfG {
 		for v := 0; v < 2; v++ {
 			add(u.Groups[id])
@@ -253,6 +361,31 @@ func verifC14NewUniverse(r *verifRng) *verifC14Universe {
 			add(cg, sg)
 		} else {
 			add(sg, cg)
+		}
+	}
+	// batch transactions: ONE transaction paying 2-4 DIFFERENT watched
+	// scripts (a batch funding tx), optionally spending watched outpoints as
+	// well. It conflicts with every member of each of its groups, so every
+	// watched script is still paid at most once on any chain.
+	if nc >= 2 {
+		for k := r.Intn(3); k > 0; k-- {
+			ids := verifC14PickGroups(r, u.ConfG, 2+r.Intn(3))
+			if r.Chance(1, 3) {
+				ids = append(ids, verifC14PickGroups(r, u.SpendG, 1+r.Intn(2))...)
+			}
+			addIDs(ids)
+		}
+	}
+	// sweep transactions: ONE transaction spending 2-4 DIFFERENT watched
+	// outpoints (each input carrying its own witness), optionally paying a
+	// watched script.
+	if ns >= 2 {
+		for k := r.Intn(3); k > 0; k-- {
+			ids := verifC14PickGroups(r, u.SpendG, 2+r.Intn(3))
+			if r.Chance(1, 3) {
+				ids = append(ids, verifC14PickGroups(r, u.ConfG, 1)...)
+			}
+			addIDs(ids)
 		}
 	}
 	return u
@@ -391,6 +524,12 @@ type verifC14Req struct {
 	// client WITHOUT IncludeBlock registered (coverage bookkeeping only).
 	optIncl, optNoIncl bool
 	noBlkCacheReg      *verifC14Seen
+
+	// coverage bookkeeping (noteMulti): the block handed to ConnectTip in
+	// which this request was satisfied by a transaction that also satisfied
+	// another live request at a lower output (input) index.
+	laterBlk chainhash.Hash
+	laterSet bool
 }
 
 type verifC14Seen struct {
@@ -430,6 +569,11 @@ type verifC14H struct {
 	// concurrent phases; the notifier calls of the backend goroutine are
 	// made outside it.
 	mu sync.Mutex
+
+	// style is the history's mining style, wanted the multi-request
+	// transactions the backend currently tries to mine (see pickBlockTxs).
+	style  int
+	wanted []*verifC14Tx
 
 	reqs    map[string]*verifC14Req
 	reqList []*verifC14Req
@@ -566,6 +710,12 @@ func (h *verifC14H) onConfirmed(c *verifC14Client, d *chainntnfs.TxConfirmation)
 		h.violation(c.Req, "conf_sound", "confirmed-wrong-block-body", desc)
 	}
 	h.confBlockDetails(c, d, b, tx, desc)
+	if tx != nil && tx.NConfG >= 2 {
+		h.vc.Count("conf_delivered_for_multi_script_tx", 1)
+		if q := c.Req; q.laterSet && d.BlockHash != nil && *d.BlockHash == q.laterBlk {
+			h.vc.Count("conf_delivered_later_requested_output", 1)
+		}
+	}
 	h.vc.Count("oracle_conf_once_evals", 1)
 	if c.seen != nil {
 		h.violation(c.Req, "conf_once", "confirmed-twice-without-reorg",
@@ -713,6 +863,12 @@ func (h *verifC14H) onSpend(c *verifC14Client, d *chainntnfs.SpendDetail) {
 
 		h.violation(c.Req, "spend_sound", "spend-wrong-details",
 			fmt.Sprintf("%s: expected outpoint %v input %d", desc, g.FundIn, tx.InIdx[g.ID]))
+	}
+	if tx != nil && tx.NSpendG >= 2 {
+		h.vc.Count("spend_delivered_for_multi_outpoint_spender", 1)
+		if q := c.Req; q.laterSet && b != nil && b.Hash == q.laterBlk && uint32(d.SpendingHeight) == b.Height {
+			h.vc.Count("spend_delivered_later_requested_input", 1)
+		}
 	}
 	h.vc.Count("oracle_spend_once_evals", 1)
 	if c.seen != nil {
@@ -903,6 +1059,15 @@ func (h *verifC14H) quiescent(where string) {
 			h.vc.Count("complete_skipped_rescan_pending", 1)
 			continue
 		}
+		if c.Req.laterSet && c.Req.laterBlk == b.Hash {
+			// satisfied at a later output (input) of a transaction whose
+			// earlier output (input) satisfied another request.
+			if c.Req.IsSpend {
+				h.vc.Count("oracle_spend_complete_later_input_evals", 1)
+			} else {
+				h.vc.Count("oracle_conf_complete_later_output_evals", 1)
+			}
+		}
 		if c.Req.IsSpend {
 			h.vc.Count("oracle_spend_complete_evals", 1)
 			if c.seen == nil {
@@ -984,9 +1149,56 @@ func (h *verifC14H) pickBlockTxs() []*verifC14Tx {
 		j := h.r.Intn(i + 1)
 		el[i], el[j] = el[j], el[i]
 	}
+	// A transaction that is a member of several groups conflicts with every
+	// member of each of them; depending on the history's mining style those
+	// are considered first (and more eagerly) so that they are not crowded
+	// out by the single-group transactions: style 0 treats all transactions
+	// alike, style 1 favours them in one block out of three, style 2 always
+	// does and mines single-group transactions more slowly. Transactions for
+	// which a batch of registrations was just made ("registered, then
+	// broadcast") come first in any style.
+	isMulti := func(tx *verifC14Tx) bool { return tx.NConfG >= 2 || tx.NSpendG >= 2 }
+	favour, singleDen, multiDen := false, 4, 2
+	if len(h.u.Multi) > 0 {
+		switch h.style {
+		case 1:
+			favour = h.r.Chance(1, 3)
+		case 2:
+			favour, singleDen, multiDen = true, 10, 3
+		}
+	}
+	wanted := map[int]bool{}
+	for _, tx := range h.wanted {
+		wanted[tx.ID] = true
+	}
+	if favour || len(wanted) > 0 {
+		var w, first, rest []*verifC14Tx
+		for _, tx := range el {
+			switch {
+			case wanted[tx.ID]:
+				w = append(w, tx)
+			case favour && isMulti(tx):
+				first = append(first, tx)
+			default:
+				rest = append(rest, tx)
+			}
+		}
+		el = append(append(w, first...), rest...)
+	}
 	for _, tx := range el {
-		if !h.r.Chance(1, 4) {
-			continue
+		switch {
+		case wanted[tx.ID]:
+			if !h.r.Chance(1, 2) {
+				continue
+			}
+		case favour && isMulti(tx):
+			if !h.r.Chance(1, multiDen) {
+				continue
+			}
+		default:
+			if !h.r.Chance(1, singleDen) {
+				continue
+			}
 		}
 		ok := true
 		for _, g := range tx.Groups {
@@ -1001,8 +1213,85 @@ func (h *verifC14H) pickBlockTxs() []*verifC14Tx {
 			used[g] = true
 		}
 		txs = append(txs, tx)
+		if wanted[tx.ID] {
+			h.vc.Count("batch_registered_txs_mined_next", 1)
+			var keep []*verifC14Tx
+			for _, w := range h.wanted {
+				if w != tx {
+					keep = append(keep, w)
+				}
+			}
+			h.wanted = keep
+		}
 	}
 	return txs
+}
+
+// noteMulti is coverage bookkeeping for a block that is about to be handed to
+// ConnectTip: a transaction in it that satisfies, at DIFFERENT outputs
+// (inputs), several different requests that are registered with the running
+// notifier, have a live client and have no details yet. Every such request
+// except the one at the lowest output (input) index is marked with the block,
+// so that the deliveries / completeness evaluations for "a later output of a
+// transaction whose earlier output matched another request" can be counted.
+func (h *verifC14H) noteMulti(b *verifC14Block) {
+	for _, tx := range b.Txs {
+		if tx.NConfG < 2 && tx.NSpendG < 2 {
+			continue
+		}
+		for _, spend := range []bool{false, true} {
+			var qs []*verifC14Req
+			groups := map[int]bool{}
+			byID, byScript := false, false
+			first := uint32(1 << 30)
+			pos := func(q *verifC14Req) uint32 {
+				if spend {
+					return tx.InIdx[q.Group]
+				}
+				return tx.OutIdx[q.Group]
+			}
+			for _, q := range h.reqList {
+				if q.IsSpend != spend || q.state == 0 || h.liveClients(q) == 0 {
+					continue
+				}
+				if _, ttx := h.truth(q); ttx != tx {
+					continue
+				}
+				qs = append(qs, q)
+				groups[q.Group] = true
+				if q.ByID {
+					byID = true
+				} else {
+					byScript = true
+				}
+				if p := pos(q); p < first {
+					first = p
+				}
+			}
+			if len(groups) < 2 {
+				continue
+			}
+			name := "multi_request_txs"
+			if spend {
+				name = "multi_outpoint_spenders"
+			}
+			h.vc.Count(name, 1)
+			if byID && byScript {
+				h.vc.Count(name+"_mixed_kinds", 1)
+			}
+			if len(groups) >= 3 {
+				h.vc.Count(name+"_3plus", 1)
+			}
+			for _, q := range qs {
+				if pos(q) != first {
+					q.laterBlk = b.Hash
+					q.laterSet = true
+				}
+			}
+			h.logf("  multi t%d at height %d satisfies %d %s requests on %d different positions",
+				tx.ID, b.Height, len(qs), map[bool]string{false: "conf", true: "spend"}[spend], len(groups))
+		}
+	}
 }
 
 func (h *verifC14H) connect(mid func()) {
@@ -1012,6 +1301,7 @@ func (h *verifC14H) connect(mid func()) {
 		ids = append(ids, tx.ID)
 	}
 	h.logf("connect height=%d txs=%v", b.Height, ids)
+	h.noteMulti(b)
 	h.call("ConnectTip", func() error { return h.n.ConnectTip(b.Blk, b.Height) })
 	h.drain()
 	if mid != nil && !h.failed {
@@ -1095,49 +1385,50 @@ func (h *verifC14H) pickHint(q *verifC14Req) uint32 {
 }
 
 func (h *verifC14H) getReq(spend bool) *verifC14Req {
-	q := &verifC14Req{IsSpend: spend}
 	if spend {
 		g := h.u.Groups[h.u.SpendG[h.r.Intn(len(h.u.SpendG))]]
-		q.Group = g.ID
-		q.ByID = g.Taproot || h.r.Bool()
-		var err error
-		if q.ByID {
-			op := g.FundIn
-			q.SpendR, err = chainntnfs.NewSpendRequest(&op, g.Script)
-			q.Key = fmt.Sprintf("spend/outpoint/g%d/%s", g.ID, g.Kind)
-		} else {
-			q.SpendR, err = chainntnfs.NewSpendRequest(nil, g.Script)
-			q.Key = fmt.Sprintf("spend/script/g%d/%s", g.ID, g.Kind)
-		}
-		if err != nil {
-			h.t.Fatalf("verif C14: NewSpendRequest: %v", err)
-		}
-	} else {
-		g := h.u.Groups[h.u.ConfG[h.r.Intn(len(h.u.ConfG))]]
-		q.Group = g.ID
-		q.ByID = h.r.Bool()
-		var err error
-		if q.ByID {
-			var members []*verifC14Tx
-			for _, tx := range h.u.Txs {
-				for _, gid := range tx.Groups {
-					if gid == g.ID {
-						members = append(members, tx)
-					}
-				}
+		return h.mkReq(g, g.Taproot || h.r.Bool(), nil)
+	}
+	g := h.u.Groups[h.u.ConfG[h.r.Intn(len(h.u.ConfG))]]
+	if !h.r.Bool() {
+		return h.mkReq(g, false, nil)
+	}
+	var members []*verifC14Tx
+	for _, tx := range h.u.Txs {
+		for _, gid := range tx.Groups {
+			if gid == g.ID {
+				members = append(members, tx)
 			}
-			tx := members[h.r.Intn(len(members))]
-			q.TxID = tx.ID
-			hash := tx.Hash
-			q.Conf, err = chainntnfs.NewConfRequest(&hash, g.Script)
-			q.Key = fmt.Sprintf("conf/txid/t%d/g%d/%s", tx.ID, g.ID, g.Kind)
-		} else {
-			q.Conf, err = chainntnfs.NewConfRequest(nil, g.Script)
-			q.Key = fmt.Sprintf("conf/script/g%d/%s", g.ID, g.Kind)
 		}
-		if err != nil {
-			h.t.Fatalf("verif C14: NewConfRequest: %v", err)
-		}
+	}
+	return h.mkReq(g, true, members[h.r.Intn(len(members))])
+}
+
+// mkReq returns the (possibly already known) request watching group g: for a
+// conf group by txid of member tx + script (byID) or by script alone; for a
+// spend group by outpoint + script (byID) or by script alone.
+func (h *verifC14H) mkReq(g *verifC14Group, byID bool, tx *verifC14Tx) *verifC14Req {
+	q := &verifC14Req{IsSpend: g.Spend, Group: g.ID, ByID: byID}
+	var err error
+	switch {
+	case g.Spend && byID:
+		op := g.FundIn
+		q.SpendR, err = chainntnfs.NewSpendRequest(&op, g.Script)
+		q.Key = fmt.Sprintf("spend/outpoint/g%d/%s", g.ID, g.Kind)
+	case g.Spend:
+		q.SpendR, err = chainntnfs.NewSpendRequest(nil, g.Script)
+		q.Key = fmt.Sprintf("spend/script/g%d/%s", g.ID, g.Kind)
+	case byID:
+		q.TxID = tx.ID
+		hash := tx.Hash
+		q.Conf, err = chainntnfs.NewConfRequest(&hash, g.Script)
+		q.Key = fmt.Sprintf("conf/txid/t%d/g%d/%s", tx.ID, g.ID, g.Kind)
+	default:
+		q.Conf, err = chainntnfs.NewConfRequest(nil, g.Script)
+		q.Key = fmt.Sprintf("conf/script/g%d/%s", g.ID, g.Kind)
+	}
+	if err != nil {
+		h.t.Fatalf("verif C14: new request %s: %v", q.Key, err)
 	}
 	if old, ok := h.reqs[q.Key]; ok {
 		return old
@@ -1145,6 +1436,91 @@ func (h *verifC14H) getReq(spend bool) *verifC14Req {
 	h.reqs[q.Key] = q
 	h.reqList = append(h.reqList, q)
 	return q
+}
+
+// registerBatch registers clients for SEVERAL DIFFERENT requests that one and
+// the same transaction satisfies: a transaction of the universe paying >= 2
+// watched scripts (conf: txid+script of that transaction and/or script-only
+// requests, one per chosen output, independent numConfs / IncludeBlock per
+// client) or spending >= 2 watched outpoints (spend: outpoint and/or
+// script-only requests, one per chosen input). The transaction may or may not
+// be on the active chain already (registration before / after inclusion).
+func (h *verifC14H) registerBatch(spend bool) bool {
+	var tx *verifC14Tx
+	if h.u.NDynTx < 3 && h.r.Chance(1, 2) {
+		h.u.NDynTx++
+		tx = h.u.newBatch(h.r, spend)
+		h.vc.Count("batch_txs_created_mid_history", 1)
+	} else {
+		var cands, fresh []*verifC14Tx
+		for _, mt := range h.u.Multi {
+			if (spend && mt.NSpendG < 2) || (!spend && mt.NConfG < 2) {
+				continue
+			}
+			cands = append(cands, mt)
+			if _, in := h.m.inChain[mt.ID]; !in {
+				fresh = append(fresh, mt)
+			}
+		}
+		if len(cands) == 0 {
+			return false
+		}
+		// mostly a transaction that is still to be mined, and preferably
+		// one that can be mined on the current tip.
+		if len(fresh) > 0 && h.r.Chance(3, 4) {
+			cands = fresh
+			var free []*verifC14Tx
+			el := map[int]bool{}
+			for _, et := range h.m.eligible(h.u) {
+				el[et.ID] = true
+			}
+			for _, ft := range fresh {
+				if el[ft.ID] {
+					free = append(free, ft)
+				}
+			}
+			if len(free) > 0 {
+				cands = free
+			}
+		}
+		tx = cands[h.r.Intn(len(cands))]
+	}
+	var ids []int
+	for _, gid := range tx.Groups {
+		if h.u.Groups[gid].Spend == spend {
+			ids = append(ids, gid)
+		}
+	}
+	ids = verifC14PickGroups(h.r, ids, 2+h.r.Intn(len(ids)-1))
+	h.logf("batch registration on t%d groups=%v", tx.ID, ids)
+	h.vc.Count("batch_registrations", 1)
+	if _, in := h.m.inChain[tx.ID]; !in && h.r.Chance(2, 3) {
+		// registered, then broadcast: the backend will try to mine it.
+		known := false
+		for _, w := range h.wanted {
+			known = known || w == tx
+		}
+		if !known {
+			if len(h.wanted) >= 3 {
+				h.wanted = h.wanted[1:]
+			}
+			h.wanted = append(h.wanted, tx)
+		}
+	}
+	for _, gid := range ids {
+		if h.failed {
+			break
+		}
+		g := h.u.Groups[gid]
+		var q *verifC14Req
+		if spend {
+			q = h.mkReq(g, g.Taproot || h.r.Bool(), nil)
+		} else {
+			q = h.mkReq(g, h.r.Bool(), tx)
+		}
+		h.register(q, h.r.Bool())
+	}
+	return true
 }
 
 // register adds a client for request q. immediate decides whether a returned
@@ -1525,11 +1901,15 @@ func (h *verifC14H) restart() {
 func (h *verifC14H) midOp() {
 	switch h.r.Intn(4) {
 	case 0:
-		if !(h.r.Chance(1, 2) && h.joinConf(h.r.Bool())) {
+		if h.r.Chance(1, 4) && h.registerBatch(false) {
+			// several requests on different outputs of one tx
+		} else if !(h.r.Chance(1, 2) && h.joinConf(h.r.Bool())) {
 			h.register(h.getReq(false), h.r.Bool())
 		}
 	case 1:
-		h.register(h.getReq(true), h.r.Bool())
+		if !(h.r.Chance(1, 4) && h.registerBatch(true)) {
+			h.register(h.getReq(true), h.r.Bool())
+		}
 	case 2:
 		if p := h.pending(); len(p) > 0 {
 			h.deliver(p[h.r.Intn(len(p))])
@@ -1631,12 +2011,16 @@ func (h *verifC14H) seqOp() {
 				}
 			}
 		case x < 68:
-			if !(r.Chance(1, 2) && h.joinConf(r.Bool())) {
+			if r.Chance(1, 4) && h.registerBatch(false) {
+				// several requests on different outputs of one tx
+			} else if !(r.Chance(1, 2) && h.joinConf(r.Bool())) {
 				h.register(h.getReq(false), r.Bool())
 			}
 			h.quiescent("after RegisterConf")
 		case x < 80:
-			h.register(h.getReq(true), r.Bool())
+			if !(r.Chance(1, 4) && h.registerBatch(true)) {
+				h.register(h.getReq(true), r.Bool())
+			}
 			h.quiescent("after RegisterSpend")
 		case x < 90:
 			if p := h.pending(); len(p) > 0 {
@@ -1667,6 +2051,8 @@ type verifC14Input struct {
 	NConf  int    `json:"conf_groups"`
 	NSpend int    `json:"spend_groups"`
 	NTx    int    `json:"txs"`
+	NMulti int    `json:"multi_txs"`
+	Style  int    `json:"mining_style"`
 }
 
 func verifC14Setup(t *testing.T, vc *verifCtx, i int, cache *channeldb.HeightHintCache,
@@ -1676,6 +2062,7 @@ func verifC14Setup(t *testing.T, vc *verifCtx, i int, cache *channeldb.HeightHin
 	h := &verifC14H{t: t, vc: vc, r: r, cache: cache, reqs: map[string]*verifC14Req{}}
 	h.limit = verifC14LimitChoices[r.Intn(len(verifC14LimitChoices))]
 	h.u = verifC14NewUniverse(r)
+	h.style = r.Intn(3)
 	start := uint32(150 + r.Intn(400))
 	if r.Chance(1, 10) {
 		start = uint32(2 + r.Intn(10))
@@ -1686,7 +2073,8 @@ func verifC14Setup(t *testing.T, vc *verifCtx, i int, cache *channeldb.HeightHin
 	}
 	nops := minOps + r.Intn(spanOps)
 	in := verifC14Input{Limit: h.limit, Start: start, Pre: pre, Ops: nops,
-		NConf: len(h.u.ConfG), NSpend: len(h.u.SpendG), NTx: len(h.u.Txs)}
+		NConf: len(h.u.ConfG), NSpend: len(h.u.SpendG), NTx: len(h.u.Txs),
+		NMulti: len(h.u.Multi), Style: h.style}
 	vc.Case(i, in)
 
 	h.m = &verifC14Model{base: start - uint32(pre), inChain: map[int]*verifC14Block{},
@@ -1824,6 +2212,7 @@ func (h *verifC14H) concurrentPhase() {
 				ids = append(ids, tx.ID)
 			}
 			h.logf("[backend] connect height=%d txs=%v", b.Height, ids)
+			h.noteMulti(b)
 			h.mu.Unlock()
 			if err := h.n.ConnectTip(b.Blk, b.Height); err != nil {
 				h.mu.Lock()
